@@ -244,6 +244,15 @@ pub fn worlds_for_c01() -> Vec<(Arc<World>, Vec<Sym>, &'static str)> {
         }
     }
     v.push((mk(s), syms(&["1", "一", "a"], &["十", ",", "東", "㍿", "ア", "Ａ", "."]), "numeral-headwords"));
+    // input-text plugins that can delete ALL of a non-empty text: runs of long marks are replaced by the empty
+    // string (a legal setting), bracketed readings are removed
+    let mut s = spec_full("W-full-erasing", true);
+    s.plugins["inputTextPlugin"] = json!([
+        default_input_text(),
+        prolonged(&["ー", "-", "〜"], ""),
+        yomigana(&["(", "（"], &[")", "）"], 4),
+    ]);
+    v.push((mk(s), syms(&["ー", "〜", "京"], &["-", "(", "ア", ")", "a", "Ａ", "ｰ", "1"]), "erasing"));
     v
 }
 
